@@ -561,6 +561,13 @@ pub fn diff_keys(a: &Value, b: &Value, prefix: &str, out: &mut Vec<String>) {
                 }
             }
         }
+        (Value::Array(x), Value::Array(y)) if x.len() == y.len() => {
+            for (i, (p, q)) in x.iter().zip(y.iter()).enumerate() {
+                if p != q {
+                    diff_keys(p, q, &format!("{}/{}", prefix, i), out);
+                }
+            }
+        }
         _ => {
             if a != b {
                 out.push(format!("{}: {} != {}", prefix, short(a), short(b)));
